@@ -101,6 +101,23 @@ Proof.
 Qed.
 Print Assumptions direct_task_returns_value.
 
+(* The distributed retry bookkeeping is not atomic: as long as the generated fact says RETRY is published
+   before the counter is incremented, the schedule "re-run before the increment lands" executes an
+   always-raising body max_retries+2 times (known finding retry-race:stale-counter); with the increment
+   first (proposed fix) the racy run IS the ordinary run. *)
+Theorem retry_race_refuted :
+  gen_retry_incr_before_publish = false ->
+  let h := mkH 2 1 [] 1 [] (ABefore (mkExn 0 0)) in
+  execs (dist_leaf_racy h) = maxr h + 2 /\ execs (dist_prog id_tr (Node h SNil)) = maxr h + 1.
+Proof. exact stale_counter_overruns. Qed.
+Print Assumptions retry_race_refuted.
+
+Theorem retry_race_absent_when_increment_first :
+  gen_retry_incr_before_publish = true ->
+  forall tr h, dist_leaf_racy h = dist_prog tr (Node h SNil).
+Proof. exact ordered_counter_is_exact. Qed.
+Print Assumptions retry_race_absent_when_increment_first.
+
 (* non-vacuity: a guarded program with a nested call that retries once, a group and a direct task *)
 Example c19_nonvacuous :
   let child := leaf 2 1 [] [ABefore (mkExn 0 0)] AOk in
